@@ -50,6 +50,8 @@ def value_eq(a, b, path='') -> Any:
         if bool(a.dedup) != bool(b.dedup):
             return False
         return value_eq(a.seq, b.seq, path + '<sorted>')
+    if (type(a).__name__ == 'SSorted') != (type(b).__name__ == 'SSorted'):
+        raise ShapeMismatch(f'one side is sorted(...), the other keeps the source order, at {path}')
     if isinstance(a, SRec) and isinstance(b, SRec):
         keys = set(a.slots) | set(b.slots)
         parts = []
